@@ -78,7 +78,16 @@ def run(tier, rep):
                 shutil.rmtree(work, ignore_errors=True)
         return name, r.returncode, logd, out
     q = tier == 'quick'
-    jobs = [('mdl', 'checks/c10.cc', [] if q else ['--full'], False), ('reader', 'checks/c11.cc', ['--nmax', '3' if q else '5'], True), ('protocol', 'checks/c09.cc', ['--depth', '5' if q else '6'], False)]
+    # API histories (several generators of the same mode alive / destroyed in one process, event reuse, rebuilds): every
+    # double-beta mode on two nuclides, a few cascades and chains
+    hcfg = os.path.join(dd, 'histories.cfg')
+    hl = []
+    for m in range(1, 21):
+        for n in ('Mo100', 'Nd150', 'Cd106') if not q else ('Mo100', 'Cd106'):
+            hl.append('2 dbd %s 0 %d' % (n, m))
+    hl += ['2 dbd Nd150 3 1', '2 dbd Mo100 2 1', '2 bkg Co60', '2 bkg Bi207+Pb207m', '2 bkg Bi214+Po214', '2 bkg Tl208', '2 bkg Co60 0 0 -1 -1 MDL']
+    open(hcfg, 'w').write('\n'.join(hl) + '\n')
+    jobs = [('histories', 'checks/c07.cc', ['--cfgfile', hcfg, '--long', '100' if q else '2000'], False), ('mdl', 'checks/c10.cc', [] if q else ['--full'], False), ('reader', 'checks/c11.cc', ['--nmax', '3' if q else '5'], True), ('protocol', 'checks/c09.cc', ['--depth', '5' if q else '6'], False)]
     with cf.ThreadPoolExecutor(4) as ex:
         futs = [ex.submit(side, n, s_, a, 3000, nd) for n, s_, a, nd in jobs]
         for f in futs:
@@ -89,7 +98,8 @@ def run(tier, rep):
             for k, v in parse_san_logs(logd, {}).items():
                 logs.setdefault(name + ':' + k, (name + ' driver', v[1]))
             try:
-                x = json.load(open(out))
+                txt = open(out).read()
+                x = json.loads(txt) if name != 'histories' else {'violations': [v for ln in txt.splitlines() if ln.strip() for v in (json.loads(ln).get('violations', []) + ([{'key': 'crash', 'text': 'history exploration child died: ' + json.loads(ln)['crashed']}] if 'crashed' in json.loads(ln) else []))]}
                 for v in x.get('violations', []):
                     if 'unexpected exception' in v['text'] or 'crash' in v['key']:
                         rep.violation('san:%s:%s' % (name, v['key'][:80]), v['text'])
